@@ -104,6 +104,41 @@ func (ex *Exec) strEq(a, b StrV) *Term {
 	if describe(a) == describe(b) && sameSnaps(a, b) {
 		return tTrue
 	}
+	// congruence: same shape, opaque applications of the same function => equal iff
+	// the arguments are equal (the formatting functions involved are injective for
+	// arguments of the same type)
+	if len(a.segs) == len(b.segs) && len(a.segs) > 0 && !oka && !okb {
+		r := tTrue
+		okAll := true
+		for i := range a.segs {
+			ga, gb := a.segs[i], b.segs[i]
+			if ga.op != gb.op || len(ga.args) != len(gb.args) {
+				okAll = false
+				break
+			}
+			if ga.op == "" {
+				if ga.lit != gb.lit {
+					okAll = false
+					break
+				}
+				continue
+			}
+			for j := range ga.args {
+				e, ok := ex.argEq(ga.args[j], gb.args[j])
+				if !ok {
+					okAll = false
+					break
+				}
+				r = tAnd(r, e)
+			}
+			if !okAll {
+				break
+			}
+		}
+		if okAll {
+			return r
+		}
+	}
 	// comparison with the empty string
 	if (oka && ca == "") || (okb && cb == "") {
 		o := a
@@ -156,6 +191,64 @@ func (ex *Exec) strEq(a, b StrV) *Term {
 	}
 	fail("string comparison not decidable by the model: %s == %s", describe(a), describe(b))
 	return nil
+}
+
+// argEq compares two arguments of an opaque string application.
+func (ex *Exec) argEq(a, b Value) (*Term, bool) {
+	switch x := a.(type) {
+	case *Term:
+		y, ok := b.(*Term)
+		if !ok || x.w != y.w {
+			return nil, false
+		}
+		return tEq(x, y), true
+	case StrV:
+		y, ok := b.(StrV)
+		if !ok {
+			return nil, false
+		}
+		return ex.strEq(x, y), true
+	case FloatV:
+		y, ok := b.(FloatV)
+		if !ok || x.w != y.w {
+			return nil, false
+		}
+		return tEq(x.bits, y.bits), true
+	case IfaceV:
+		y, ok := b.(IfaceV)
+		if !ok {
+			return nil, false
+		}
+		if x.t == nil || y.t == nil {
+			return boolConst(x.t == nil && y.t == nil), true
+		}
+		if !types.Identical(x.t, y.t) {
+			return tFalse, true
+		}
+		return ex.argEq(x.v, y.v)
+	case SliceSnap:
+		y, ok := b.(SliceSnap)
+		if !ok {
+			return nil, false
+		}
+		r := tEq(x.len, y.len)
+		if x.len.isConst && y.len.isConst {
+			if x.len.v != y.len.v {
+				return tFalse, true
+			}
+			if x.len.v <= 64 {
+				for i := uint64(0); i < x.len.v; i++ {
+					r = tAnd(r, tEq(x.a.sel(bvBin("bvadd", x.off, u64(int64(i)))), y.a.sel(bvBin("bvadd", y.off, u64(int64(i))))))
+				}
+				return r, true
+			}
+		}
+		// symbolic or long: Skolem index (sound where the comparison is asserted)
+		j := ex.fresh("j", 64)
+		ex.Notes["string equality over symbolic-length octets decided with a Skolem index (valid in assertions)"]++
+		return tAnd(r, tImplies(bvCmp("bvult", j, x.len), tEq(x.a.sel(bvBin("bvadd", x.off, j)), y.a.sel(bvBin("bvadd", y.off, j))))), true
+	}
+	return nil, false
 }
 
 func sameSnaps(a, b StrV) bool {
